@@ -43,7 +43,11 @@ impl<T> Queue<T> {
     pub fn push(&self, t: T) {
         unsafe {
             let node = Node::new(Some(t));
+            #[cfg(may_verif)]
+            crate::verif::point();
             let prev = self.head.swap(node, Ordering::AcqRel);
+            #[cfg(may_verif)]
+            crate::verif::point();
             (*prev).next.store(node, Ordering::Release);
         }
     }
@@ -53,6 +57,8 @@ impl<T> Queue<T> {
     pub fn is_empty(&self) -> bool {
         let tail = unsafe { *self.tail.get() };
         // the list is empty
+        #[cfg(may_verif)]
+        crate::verif::point();
         std::ptr::eq(self.head.load(Ordering::Acquire), tail)
     }
 
@@ -62,6 +68,8 @@ impl<T> Queue<T> {
             let tail = *self.tail.get();
 
             // the list is empty
+            #[cfg(may_verif)]
+            crate::verif::point();
             if std::ptr::eq(self.head.load(Ordering::Acquire), tail) {
                 return None;
             }
@@ -70,6 +78,8 @@ impl<T> Queue<T> {
             let mut next;
             let backoff = Backoff::new();
             loop {
+                #[cfg(may_verif)]
+                crate::verif::point();
                 next = (*tail).next.load(Ordering::Acquire);
                 if !next.is_null() {
                     break;
